@@ -72,8 +72,8 @@ from unittest import mock
 from . import core, tlc, zkfake
 
 INSTS = ['i%d' % k for k in range(1, 6)]
-MVERS = [1, 2, 3]
-PVERS = [0, 1, 2, 3]
+MVERS = [1, 2, 3, 4, 5]      # 4, 5: the edges of the manifest DOMAIN (see manifest())
+PVERS = [0, 1, 2, 3, 4]
 ENV_EVS = ('Place', 'Unplace', 'SetPD', 'SetMan', 'DelMan')
 RD_EVS = ('PresenceAppears', 'PresenceDisappears', 'PlacementAppears', 'PlacementDisappears')
 FS_CALLS = ('Unlink', 'CreateTmp', 'Write', 'Chmod', 'Close', 'Rename')
@@ -117,6 +117,33 @@ def manifest(a, v):
     if v == 3:
         man['identity_group'] = 'proid.%s' % a
         man['schedule_once'] = True
+    if v in (4, 5):
+        # values a JSON producer (zkutils.put -> json.dumps) can write and that
+        # must come back from the cache file with the same TYPE: exponent
+        # floats, -0.0, ints beyond 64 bit, strings that look like YAML 1.1
+        # booleans / nulls / numbers (as values and as keys), control
+        # characters, nesting, empty containers
+        man.update({
+            'big': 1e+16, 'small': 1e-05, 'e5': 1E5, 'negzero': -0.0, 'huge': 2 ** 63,
+            'neghuge': -2 ** 63 - 1, 'sci': 1.5e+300, 'tiny': 5e-324, 'tenth': 0.1,
+            'yes': 'no', 'on': 'yes', 'null': 'null', '~': '~', '1e3': '1e3', '0x10': '0x10',
+            '010': '010', 'true': 'True', 'off': 'off', 'y': 'n', '1_000': '1_000', '1:30': '1:30',
+            '.inf': '.nan', '2001-01-01': '2001-01-01', '=': '<<', 'empty': '',
+            'nested': {'a': [1, [2, {'b': []}], {}], 'c': {'d': {'e': None}},
+                       'f': [True, False, None, 1e+16, '1e+16', -0.0, 2 ** 63]},
+            'empty_list': [], 'empty_dict': {}, 'spaces': '  lead and trail  ', 'colon': 'a: b',
+            'hash': 'a #b', 'multi': 'l1\nl2\n', 'quote': '"\'', 'dash': '- x', 'star': '*a', 'amp': '&a',
+            'bang': '!!str', 'pct': '%TAG',
+        })
+        man['environ'] = [{'name': 'CTRL', 'value': 'bell\x07 tab\t esc\x1b del\x7f nbsp\xa0 ls\u2028 bom\ufeff'},
+                          {'name': 'yes', 'value': 'on'}, {'name': 'E', 'value': '1e+16'}]
+    if v == 5:
+        # ... plus characters outside the BMP (json.dumps writes surrogate-pair
+        # escapes), NUL, and a key of more than 1024 characters
+        man['environ'] += [{'name': 'EMOJI', 'value': 'smile \U0001F600 and \U00010000'},
+                           {'name': 'NUL', 'value': 'a\x00b'}]
+        man['k' * 1100] = 'long key'
+        man['\U0001F600'] = 'non-BMP key'
     return man
 
 
@@ -124,7 +151,8 @@ def payload(p):
     return {0: None,
             1: {'identity': None, 'identity_count': None, 'expires': 1500000000.5},
             2: {'identity': 0, 'identity_count': 3, 'expires': 1600000000.25},   # first identity of a group: falsy
-            3: {'identity': 2, 'identity_count': 3, 'expires': 1700000000.0}}[p]
+            3: {'identity': 2, 'identity_count': 3, 'expires': 1700000000.0},
+            4: {'identity': 3, 'identity_count': 4, 'expires': 1e+16}}[p]      # json: "1e+16"
 
 
 def merged(a, v, p):
@@ -147,15 +175,23 @@ def _sval(v):
         s = 's:' + v
     else:
         s = 'j:' + json.dumps(v, sort_keys=True, default=str)
-    if len(s) > 80:
-        s = 'h:%s:%d' % (hashlib.sha1(s.encode()).hexdigest()[:16], len(s))
+    if len(s) > 80 or any(not 0x20 <= ord(c) <= 0x7e for c in s):
+        # long or not plain ASCII: by hash (the tag in front keeps the comparison typed)
+        s = 'h:%s:%d' % (hashlib.sha1(s.encode('utf-8', 'surrogatepass')).hexdigest()[:16], len(s))
     return s
+
+
+def _skey(k):
+    k = str(k)
+    if len(k) > 80 or any(not 0x20 <= ord(c) <= 0x7e for c in k):
+        k = 'k:%s:%d' % (hashlib.sha1(k.encode('utf-8', 'surrogatepass')).hexdigest()[:16], len(k))
+    return k
 
 
 def strmap(d):
     """A mapping with every value rendered as a (short) string: comparable in
     TLA+ without type errors, long values by hash."""
-    return {str(k): _sval(v) for k, v in d.items()}
+    return {_skey(k): _sval(v) for k, v in d.items()}
 
 
 def batch_header():
@@ -1072,7 +1108,17 @@ def vary(hist, rng):
     TLC-generated history: half of the placement nodes get a NEAR-BY ctime, half
     of the first syncs of a process life go through the real EventMgr.run()."""
     start = False
+
+    def wild(x):
+        if x[0] in ('SetMan', 'PriorFile') and rng.random() < 0.25:
+            x[2] = rng.choice([4, 5])           # the edges of the manifest domain
+        if x[0] in ('Place', 'SetPD') and x[2] and rng.random() < 0.2:
+            x[2] = 4
+        if x[0] == 'PriorFile' and x[3] and rng.random() < 0.2:
+            x[3] = 4
+
     for e in hist:
+        wild(e)
         if e[0] == 'Place' and len(e) == 4 and rng.random() < 0.5:
             e.append(True)
         elif e[0] in ('Boot', 'Restart'):
@@ -1083,6 +1129,7 @@ def vary(hist, rng):
             start = bool(e[1].get('cut'))      # a cut sync is followed by a restart
             for evs in (e[1].get('conc') or {}).values():
                 for x in evs:
+                    wild(x)
                     if x[0] == 'Place' and len(x) == 4 and rng.random() < 0.5:
                         x.append(True)
     return hist
